@@ -402,11 +402,13 @@ class ModuleVistor(NodeVisitor):
             elif isinstance(ob, model.Module) and (
                     not isinstance(current, model.Package) or 
                     ob.state is model.ProcessingState.PROCESSING or 
-                    ob.parent is None):
+                    ob.parent is None or 
+                    f'{current.fullName()}.'.startswith(f'{ob.fullName()}.')):
                 # A module can only be documented as part of a package: 
                 # when re-exported by a plain module it stays where it is.
                 # Neither can it be moved while it is being processed itself,
                 # and a top-level module or package stays a root of the system.
+                # A package cannot be moved into itself or into one of its sub-packages.
                 pass
             else:
                 if origin_module.all is None or origin_name not in origin_module.all:
